@@ -5,6 +5,7 @@ import (
 	"fmt"
 	"sort"
 	"strings"
+	"syscall"
 	"testing"
 	"time"
 
@@ -25,6 +26,9 @@ type Step struct {
 type Script struct {
 	Plans []rig.ConnPlan `json:"plans"`
 	Steps []Step         `json:"steps"`
+	// WriteFault[i]: every write of the proxy on connection i fails (the peer is gone: EPIPE). Only for plans whose
+	// outcome does not depend on what the proxy manages to send (plain HTTP or garbage on the TLS port).
+	WriteFault []bool `json:"write_fault,omitempty"`
 }
 
 var col = vstat.New("C16", "c16.metric")
@@ -66,6 +70,7 @@ func gen(t *rapid.T) Script {
 	for i := 0; i < n; i++ {
 		p, _ := genPlan(t)
 		s.Plans = append(s.Plans, p)
+		s.WriteFault = append(s.WriteFault, (p.Kind == "plainhttp" || p.Kind == "garbage") && rapid.Bool().Draw(t, "wfault"))
 	}
 	started, finished := map[int]bool{}, map[int]bool{}
 	for len(finished) < n {
@@ -210,7 +215,17 @@ func exec(t *testing.T, s Script) *vstat.Violation {
 		for si, st := range s.Steps {
 			switch st.Op {
 			case "start":
-				r, err := rig.StartClient(p, s.Plans[st.Conn], nil, fmt.Sprintf("c%d", st.Conn))
+				var hooks *rig.Hooks
+				if st.Conn < len(s.WriteFault) && s.WriteFault[st.Conn] {
+					hooks = &rig.Hooks{OnOp: func(kind string, idx int) error {
+						if kind == "Write" {
+							return syscall.EPIPE
+						}
+						return nil
+					}}
+					classes["proxy-cannot-write-to-a-non-tls-client"] = true
+				}
+				r, err := rig.StartClient(p, s.Plans[st.Conn], hooks, fmt.Sprintf("c%d", st.Conn))
 				if err != nil {
 					viol = vstat.Violf("harness|dial", "%v", err)
 					break
@@ -282,6 +297,6 @@ func exec(t *testing.T, s Script) *vstat.Violation {
 
 func TestMetric(t *testing.T) {
 	rig.Certs()
-	col.Mandatory("label:0/", "label:1/h2", "label:1/http/1.1", "label:1/", "plan:plainhttp", "plan:garbage", "plan:silent", "plan:serve:h2:close", "plan:serve:http/1.1:stall", "handshake-or-capture-fails:odd-record-version")
+	col.Mandatory("label:0/", "label:1/h2", "label:1/http/1.1", "label:1/", "plan:plainhttp", "plan:garbage", "plan:silent", "plan:serve:h2:close", "plan:serve:http/1.1:stall", "handshake-or-capture-fails:odd-record-version", "proxy-cannot-write-to-a-non-tls-client")
 	vstat.Run(t, vstat.Spec[Script]{Col: col, Quick: 1000, Thorough: 30000, Gen: gen, Exec: func(s Script) *vstat.Violation { return exec(t, s) }})
 }
